@@ -8,7 +8,7 @@
 (* json / math / time, methods of string, bytes, list, dict, set and of    *)
 (* time values.  A TARGET is a callable together with one receiver of      *)
 (* CrashDomain!Receivers.  For every target TLC enumerates                 *)
-(*   quick   : arity 0 and 1 over the whole pool, arity 2 over the 10-value*)
+(*   quick   : arity 0 and 1 over the whole pool, arity 2 over the 11-value*)
 (*             sub-pool, two keyword forms per keyword name                *)
 (*   thorough: arity 0..2 over the whole pool, arity 3 as a covering       *)
 (*             array of strength 2 over the 23-value MidPool (every pair   *)
